@@ -37,6 +37,21 @@ CLAIMED["C15"] = dict(
          "and reported as undecided, not as discharged.",
     technique="Coq proof (compiler correctness by induction, Coquelicot derivatives, invariant over histories) + structural and interval-certified correspondence")
 
+CLAIMED["C01"] = dict(
+    text="Proof: the mass-balance residual row the simulator builds for a junction means D - sum(inlet flows) + sum(outlet flows) + leak, so a "
+         "converged row is the junction balance within the solver tolerance; any row read back as (base, minus, plus) has that meaning; "
+         "the net inflows of all nodes of any network sum to zero (discrete divergence identity: no link is counted on one side only), hence "
+         "reported demand+leak totals balance within #nodes*tol; demand patterns are periodic. Ties decided inside coqc on exact rationals: "
+         "every mass-balance row held by the real simulator at every solve reads back as base - MODEL inlets + MODEL outlets (+ leak iff "
+         "active), and every reported step of generated DD/PDD runs satisfies inflow - outflow = demand + leak at every junction, tank and "
+         "reservoir, and the DD demand formula base*pattern((t+pattern_start) div step mod n)*multiplier at every connected junction.",
+    ref="DESIGN.md section 5 C01",
+    note="Trusted: Coq kernel, stdlib real axioms; harness (netgen, tracing wrapper around store_results_in_network, row dumper), exact "
+         "binary64->rational conversion. Modelled not verified: the Newton solver (oracle with exit contract residual inf-norm < 1e-6; the "
+         "balance is re-evaluated on the reported tables, so a false 'converged' would be seen), float summation order (tolerance 1.1e-6), "
+         "pandas result assembly (read through the final tables). Runs that do not converge are skipped and counted.",
+    technique="Coq proof (induction over link lists, divergence identity) + structural and exact-rational correspondence on real simulator runs")
+
 NOT_YET = {
 }
 
